@@ -1,6 +1,6 @@
 CONSTANTS
   NSec = 40
-  NVec = 20000
+  NVec = 12000
   NCand = 5000
   NRtp = 3240
 INIT Init
